@@ -16,7 +16,7 @@ type Focus struct {
 	Unknown     float64 // weight of unknown option tokens
 	DashDash    float64
 	Bytes       float64 // raw byte tokens
-	Completion  bool
+	Completion  float64
 	Dispatch    bool
 	Help        bool
 	ForceMode   int // -1 random
@@ -57,13 +57,13 @@ func defaultFocus(prop string) Focus {
 	case "C12":
 		f.Env, f.ScalarBias, f.Commands = 0.8, 0.7, 0.2
 	case "C17":
-		f.Completion, f.Suggest, f.Commands, f.HelpCmd = true, 0.45, 0.7, 0.5
+		f.Completion, f.Suggest, f.Commands, f.HelpCmd = 1, 0.45, 0.7, 0.5
 	case "C18":
 		f.Help, f.Commands, f.HelpCmd, f.Required, f.Env = true, 0.7, 0.7, 0.3, 0.3
 	case "C19":
-		f.Bytes, f.DefErrors = 2.5, 0.05
+		f.Bytes, f.DefErrors, f.Completion, f.Suggest = 2.5, 0.01, 0.3, 0.3
 	case "C20":
-		f.Required, f.Unknown, f.Help, f.Commands = 0.4, 2, true, 0.6
+		f.Required, f.Unknown, f.Help, f.Commands, f.Completion, f.Suggest = 0.4, 2, true, 0.6, 0.25, 0.3
 	}
 	return f
 }
@@ -222,7 +222,7 @@ func (g *gen) genOpt(pi *progInfo, n *nodeInfo, used map[string]bool, env *[]Env
 		mods = append(mods, Mod{M: "arg", Strs: []string{[]string{"thing", "", "path", "é"}[g.r.Intn(4)]}})
 	}
 	if g.p(g.f.Suggest) {
-		mods = append(mods, Mod{M: "sugg", Strs: [][]string{{"s1", "s2"}, {"alpha", "alp", "beta"}, {"k=", "k=v"}, {"x"}}[g.r.Intn(4)]})
+		mods = append(mods, Mod{M: "sugg", Strs: [][]string{{"s1", "s2"}, {"alpha", "alp", "beta"}, {"k=", "k=v"}, {"x"}, {"os=", "arch="}, {"k="}}[g.r.Intn(6)]})
 	}
 	if g.p(g.f.Suggest / 2) {
 		mods = append(mods, Mod{M: "sfn", N: g.r.Intn(3)})
@@ -575,7 +575,7 @@ func (g *gen) genCompLine(pi *progInfo) string {
 			oi := cur.opts[g.r.Intn(len(cur.opts))]
 			last = "--" + prefixOf(g, oi.keys[g.r.Intn(len(oi.keys))])
 			if g.p(0.4) {
-				last = "--" + oi.keys[0] + "=" + []string{"", "s", "a", "k", "val"}[g.r.Intn(5)]
+				last = "--" + oi.keys[g.r.Intn(len(oi.keys))] + "=" + []string{"", "s", "a", "k", "val", "o", "os", "x", "al"}[g.r.Intn(9)]
 			}
 		}
 	case 5:
@@ -606,7 +606,7 @@ func (g *gen) genCompLine(pi *progInfo) string {
 func (g *gen) genCase(id int) *Case {
 	c := &Case{ID: id}
 	pi := g.genProgram(c)
-	if g.f.Completion {
+	if g.p(g.f.Completion) {
 		c.Comp = true
 		c.Zsh = g.p(0.4)
 		c.CompLine = g.genCompLine(pi)
